@@ -26,7 +26,7 @@ func verifGeoSubnet(bits int) netip.Prefix {
 // client mapped to the same subnet; a client that opted out with /0 is never served
 // from the subnet-specific cache and gets a /0 upstream query.
 //
-//verif:harness name=H05c-partition tier=quick,thorough bounds="two consecutive IPv4 clients asking the same question; GeoIP subnets symbolic with a length from {12, 20, 24}; upstream scope of the first answer symbolic; second client plain, with an own ECS option, or opted out with /0; one-slot caches honouring the agdcache contract" reach=hit,miss,declined,scope-zero maxpaths=100000
+//verif:harness name=H05c-partition tier=quick,thorough bounds="two consecutive IPv4 clients asking the same question, both with or both without the DO bit; GeoIP subnets symbolic with a length from {12, 20, 24}; upstream scope of the first answer symbolic; second client plain, with an own ECS option, or opted out with /0; one-slot caches honouring the agdcache contract" reach=hit,miss,declined,scope-zero maxpaths=100000
 //verif:assume maphash without collisions between different streams (hosts compared separately); no expiry between the two requests; GeoIP stub
 func VerifC05Partition() {
 	verifPoolMode(1) // released pooled objects (cache requests, cloned messages) are handed back
@@ -36,6 +36,8 @@ func VerifC05Partition() {
 	bits := []int{12, 20, 24}[verifChoice(3)]
 	s1, s2 := verifGeoSubnet(bits), verifGeoSubnet(bits)
 	scope := nondetU8()
+	// clients may set the DNSSEC OK bit (it is part of the cache key, so both ask alike)
+	do := verifChoice(2) == 1
 
 	ask := func(geo netip.Prefix, ecsOpt *dnsmsg.ECS, withOpt bool) (*verifNext5, *verifRW5) {
 		mw.geoIP = verifGeo5{subnet: geo}
@@ -44,7 +46,7 @@ func VerifC05Partition() {
 		req := &dns.Msg{}
 		req.SetQuestion("example.org.", dns.TypeA)
 		if withOpt {
-			req.SetEdns0(1232, false)
+			req.SetEdns0(1232, do)
 		}
 		ri := &agd.RequestInfo{RemoteIP: netip.MustParseAddr("198.51.100.7"), Host: "example.org", QType: dns.TypeA, QClass: dns.ClassINET, Proto: agd.ProtoDNS, ECS: ecsOpt}
 		ctx := agd.ContextWithRequestInfo(context.Background(), ri)
@@ -58,7 +60,7 @@ func VerifC05Partition() {
 	if verifChoice(2) == 1 {
 		firstECS = &dnsmsg.ECS{Subnet: netip.MustParsePrefix("192.0.2.0/24"), Scope: 0}
 	}
-	n1, rw1 := ask(s1, firstECS, firstECS != nil)
+	n1, rw1 := ask(s1, firstECS, firstECS != nil || do)
 	verifAssert("first-request-goes-upstream", n1.calls == 1)
 	verifEcho(rw1.resp, firstECS)
 	dependent := scope != 0
@@ -71,7 +73,7 @@ func VerifC05Partition() {
 
 	switch verifChoice(3) {
 	case 0: // a second plain client
-		n2, rw2 := ask(s2, nil, false)
+		n2, rw2 := ask(s2, nil, do)
 		if dependent {
 			verifAssert("scoped-answer-reused-only-for-the-same-subnet", (n2.calls == 0) == (s2 == s1))
 		} else {
